@@ -153,6 +153,28 @@ def _fn(src):
     return _dump(ast.parse(src).body[0])
 
 
+_CTX_TARGET = ("Attribute(value=Attribute(value=Name(id='_libsc3', ctx=Load()), attr='main', ctx=Load()), "
+               "attr='_current_synthdef', ctx=Store())")
+_LOCK = ("Attribute(value=Attribute(value=Name(id='_libsc3', ctx=Load()), attr='main', ctx=Load()), "
+         "attr='_def_build_lock', ctx=Load())")
+
+
+def _is_ctx_reset(stmt):
+    """`_libsc3.main._current_synthdef = None` (or `= <saved previous value>`)."""
+    return (isinstance(stmt, ast.Assign) and len(stmt.targets) == 1 and _dump(stmt.targets[0]) == _CTX_TARGET
+            and ((isinstance(stmt.value, ast.Constant) and stmt.value.value is None) or isinstance(stmt.value, ast.Name)))
+
+
+def _locked_try(body, what):
+    """body = [`with main._def_build_lock:` [simple assignments...] `try: ...`] -> the Try node."""
+    if not (len(body) == 1 and isinstance(body[0], ast.With) and len(body[0].items) == 1
+            and _dump(body[0].items[0].context_expr) == _LOCK and body[0].body
+            and isinstance(body[0].body[-1], ast.Try)
+            and all(isinstance(x, ast.Assign) for x in body[0].body[:-1])):
+        raise Refused('%s is not `with main._def_build_lock: try: ...`' % what)
+    return body[0].body[-1]
+
+
 def gen_opcodes(repo, gendir):
     errors = []
     out = [HEADER % 'sc3/synth/_specialindex.py, sc3/synth/ugen.py',
@@ -230,18 +252,38 @@ def gen_opcodes(repo, gendir):
         if fd is None:
             raise Refused('SynthDesc._read_synthdef2 not found')
         body = _strip_doc(fd).body
-        reset = "Assign(targets=[Attribute(value=Attribute(value=Name(id='_libsc3', ctx=Load()), attr='main', ctx=Load()), attr='_current_synthdef', ctx=Store())], value=Constant(value=None))"
-        lock = "Attribute(value=Attribute(value=Name(id='_libsc3', ctx=Load()), attr='main', ctx=Load()), attr='_def_build_lock', ctx=Load())"
-        if not (len(body) == 1 and isinstance(body[0], ast.With) and len(body[0].items) == 1
-                and _dump(body[0].items[0].context_expr) == lock and len(body[0].body) == 1
-                and isinstance(body[0].body[0], ast.Try)):
-            raise Refused('_read_synthdef2 is not `with main._def_build_lock: try: ...`')
-        tr = body[0].body[0]
-        fin = (not tr.handlers and not tr.orelse and len(tr.finalbody) == 1 and _dump(tr.finalbody[0]) == reset)
+        tr = _locked_try(body, '_read_synthdef2')
+        fin = (not tr.handlers and not tr.orelse and len(tr.finalbody) == 1 and _is_ctx_reset(tr.finalbody[0]))
         out.append('(* SynthDesc._read_synthdef2 resets main._current_synthdef in a `finally:` clause *)\n'
                    'Definition desc_read_finally : bool := %s.\n' % ('true' if fin else 'false'))
     except (Refused, SyntaxError, OSError) as e:
         errors.append({'target': 'Gen_opcodes', 'error': 'description reader: %s' % e})
+    # ---- SynthDef._build: is the build context reset whatever is raised (finally / except BaseException)?
+    try:
+        tree = ast.parse(open(os.path.join(repo, 'sc3/synth/synthdef.py')).read())
+        fd = None
+        for n in tree.body:
+            if isinstance(n, ast.ClassDef) and n.name == 'SynthDef':
+                for m in n.body:
+                    if isinstance(m, ast.FunctionDef) and m.name == '_build':
+                        fd = m
+        if fd is None:
+            raise Refused('SynthDef._build not found')
+        tr = _locked_try(_strip_doc(fd).body, '_build')
+        in_finally = any(_is_ctx_reset(x) for x in tr.finalbody)
+
+        def catches_all(h):
+            return h.type is None or (isinstance(h.type, ast.Name) and h.type.id == 'BaseException')
+        in_base = any(catches_all(h) and any(_is_ctx_reset(x) for x in h.body) for h in tr.handlers)
+        in_exc = any(isinstance(h.type, ast.Name) and h.type.id == 'Exception' and any(_is_ctx_reset(x) for x in h.body)
+                     for h in tr.handlers)
+        if not (in_finally or in_base or in_exc):
+            raise Refused('SynthDef._build does not reset main._current_synthdef on failure in a way the model knows')
+        out.append('(* SynthDef._build resets main._current_synthdef whatever the graph function raises '
+                   '(`finally:` / `except BaseException:`), not only for Exception subclasses *)\n'
+                   'Definition build_finally : bool := %s.\n' % ('true' if (in_finally or in_base) else 'false'))
+    except (Refused, SyntaxError, OSError) as e:
+        errors.append({'target': 'Gen_opcodes', 'error': 'SynthDef._build: %s' % e})
     _write(os.path.join(gendir, 'Gen_opcodes.v'), '\n'.join(out))
     return errors
 
